@@ -129,4 +129,27 @@ CHECKS["C03"] = dict(
     thorough=dict(workers=16, cases=4000, maxsize=120),
 )
 
+CHECKS["C19"] = dict(
+    harness="C19_map", sources=["props/C19_map.cc"], variant="asan",
+    level="exploration", engine="rapidcheck stateful model + ASan/UBSan",
+    technique="stateful model-based property testing against std::map; parse/print round trip "
+              "and grammar oracle for attribute paths",
+    level_text="Generated operation sequences over four map slots compared with a reference "
+               "dictionary after every operation (lookups, typed lookups, size, exists, foreach, "
+               "equality both ways, clones, add_all incl. self), and generated path strings judged "
+               "by a reference grammar plus round-trip laws, all under ASan with exact-size "
+               "caller buffers. Sampled.",
+    level_note="Values passed back from the same key of the same map into add are excluded (the "
+               "header says that pointer dies when the value changes). strtol leniencies inside "
+               "[index] (sign, leading blanks) are unspecified.",
+    rule=("up to 80 ops per case from {add (5 types, pool of colliding names + long/UTF-8 names, "
+          "bin 0..1 MiB), typed adds, del, get, exists, clone i->j, add_all i->j (i=j too), "
+          "equal, destroy, path probe}. Non-trivial = the sequence replaced an existing key and "
+          "mutated a map after clone/add_all, or probed a path with an index component or one the "
+          "grammar rejects. Distinct = FNV-1a of the plan."),
+    assumptions=["attr_path functions are internal; linked directly like the repository's own unit tests do"],
+    quick=dict(workers=16, cases=400, maxsize=80),
+    thorough=dict(workers=16, cases=12000, maxsize=80),
+)
+
 NOT_APPLICABLE = []
